@@ -218,3 +218,55 @@ Proof.
       destruct (dec_granule h g c1 st bb r cu) as [[g' r'] cu'] end.
     injection E as <-. cbn. unfold half, bsz in *. destruct (d_centerW s =? 0); lia.
 Qed.
+
+(* ---- vorbis_synthesis_lapout ------------------------------------------------------- *)
+
+(* decoder state right after a blockin that carried PCM (any history before it):
+   the centre phase has toggled, pending output sits in the half that held
+   the previous centre *)
+Definition AfterBlockin (c : cfg) (s : dec) : Prop :=
+  let n1 := half c true in
+  let prevC := if d_centerW s =? 0 then 0 else n1 in       (* centerW = 0 <-> this block's centre half is the upper one *)
+  (d_centerW s = 0 \/ d_centerW s = n1) /\
+  prevC <= d_ret s /\ d_ret s <= d_cur s /\
+  d_cur s <= prevC + half c (d_lW s) / 2 + half c (d_W s) / 2.
+
+(* lapout returns, contiguously and in order, first what pcmout would have
+   returned, then the n not-yet-windowed samples of the last block's second
+   half; everything inside the 2*n1 buffer.  When the pending run reaches up to
+   the block centre (nothing trimmed at its end) *)
+Lemma lapout_contiguous c s buf :
+  SizesOK c -> AfterBlockin c s ->
+  let n1 := half c true in
+  let n := half c (d_W s) in
+  let prevC := if d_centerW s =? 0 then 0 else n1 in
+  let thisC := if d_centerW s =? 0 then n1 else 0 in
+  d_cur s = prevC + half c (d_lW s) / 2 + half c (d_W s) / 2 ->
+  let '(r, s') := dec_lapout c s in
+  let buf' := lapout_buf c s buf in
+  let pending := d_cur s - d_ret s in
+  r = pending + n /\ 0 <= d_ret s' /\ d_ret s' + r <= 2 * n1 /\
+  (forall j, 0 <= j < pending -> buf' (d_ret s' + j) = buf (d_ret s + j)) /\
+  (forall j, 0 <= j < n -> buf' (d_ret s' + pending + j) = buf (thisC + j)).
+Proof.
+  intros (P0 & P1 & Ev0 & Ev1) (Hc & Hr1 & Hr2 & Hr3). cbv zeta. intros Hfull.
+  unfold dec_lapout, lapout_buf, bsz.
+  change (Z.shiftr (bs0 c) (hs c + 1)) with (half c false).
+  change (Z.shiftr (bs1 c) (hs c + 1)) with (half c true).
+  change (Z.shiftr (if d_W s then bs1 c else bs0 c) (hs c + 1)) with (half c (d_W s)).
+  assert (half c (d_lW s) = if d_lW s then half c true else half c false) as HlW by (destruct (d_lW s); reflexivity).
+  assert (half c (d_W s) = if d_W s then half c true else half c false) as HW by (destruct (d_W s); reflexivity).
+  rewrite HlW, HW in *. clear HlW HW.
+  generalize dependent (half c true). generalize dependent (half c false). intros n0 P0 Ev0 n1 P1 Ev1 Hc Hr1 Hr3 Hfull.
+  destruct (d_ret s <? 0) eqn:Eneg; [destruct (d_centerW s =? 0); lia|].
+  destruct Hc as [Hc | Hc]; rewrite Hc in *.
+  - change (0 =? 0) with true in *. cbv iota in *.
+    destruct (0 =? n1) eqn:E0; [lia|].
+    destruct (d_lW s), (d_W s); cbn [xorb negb d_ret d_cur];
+      (split; [lia|]); (split; [lia|]); (split; [lia|]); split; intros j Hj; ifs;
+      try reflexivity; try (f_equal; lia); lia.
+  - destruct (n1 =? 0) eqn:E0; [lia|]. rewrite Z.eqb_refl.
+    destruct (d_lW s), (d_W s); cbn [xorb negb d_ret d_cur];
+      (split; [lia|]); (split; [lia|]); (split; [lia|]); split; intros j Hj; ifs;
+      try reflexivity; try (f_equal; lia); lia.
+Qed.
